@@ -23,13 +23,13 @@ type c17case struct {
 	kind string // int | float | str | name
 	src  string // spelling
 	// expectations
-	wantInt    *big.Int
-	wantFloat  float64
-	floatOver  bool
-	wantStr    string
-	strClass   string // documented | go-escape | undefined-escape
-	strPlain   string // non-escape characters in order (for go-escape)
-	form       string // sub-form label (key + distinct)
+	wantInt   *big.Int
+	wantFloat float64
+	floatOver bool
+	wantStr   string
+	strClass  string // documented | go-escape | undefined-escape
+	strPlain  string // non-escape characters in order (for go-escape)
+	form      string // sub-form label (key + distinct)
 }
 
 func usep(rng *rand.Rand, digits string) string {
@@ -209,7 +209,7 @@ func genStr(rng *rand.Rand) c17case {
 			want.WriteString(esc.v)
 		default:
 			if mode == 0 {
-				e := []string{`\r`, `\a`, `\b`, `\f`, `\v`, `\x41`, `é`, `\101`, `\'`}[rng.Intn(9)]
+				e := []string{`\r`, `\a`, `\b`, `\f`, `\v`, `\x41`, `é`, `\101`, `\'`, `\xe3\x81\x82`, `\303\251`, `\u3042`, `\U0001F600`, `\x80`, `\377`, `\xc3\xa9`}[rng.Intn(16)]
 				src.WriteString(e)
 				c.strClass, c.form = "go-escape", "go-style-escape"
 			} else if mode == 1 {
@@ -324,6 +324,7 @@ func c17fixed() []c17case {
 		{`"a\nb"`, "a\nb", "documented", ""}, {`"\\n"`, `\n`, "documented", ""}, {`"\"q\""`, `"q"`, "documented", ""}, {`"tab\there"`, "tab\there", "documented", ""},
 		{`"# not embedded"`, "# not embedded", "documented", ""}, {`"a#b"`, "a#b", "documented", ""}, {`""`, "", "documented", ""}, {`"日本語\n€"`, "日本語\n€", "documented", ""},
 		{`"a\rb"`, "", "go-escape", "ab"}, {`"\x41B"`, "", "go-escape", "B"}, {`"éé"`, "", "go-escape", "é"},
+		{`"\xe3\x81\x82"`, "", "go-escape", ""}, {`"caf\303\251"`, "", "go-escape", "caf"}, {`"\u3042!"`, "", "go-escape", "!"}, {`"a\xffb"`, "", "go-escape", "ab"},
 	}
 	for _, s := range strs {
 		form := map[string]string{"documented": "documented-escapes", "go-escape": "go-style-escape", "undefined-escape": "undefined-escape"}[s.class]
@@ -408,6 +409,11 @@ func c17judge(ip *interp.Interp, c *c17case) (key, detail string, dkey string) {
 			if o.OK() {
 				if !isStr || !isSubsequence(c.strPlain, ps.Value) {
 					return "C17|str|go-style-escape|loses-characters", fmt.Sprintf("%s → %s: the plain characters %q are not all kept", c.src, o.Outcome(), c.strPlain), dkey
+				}
+				// accepted byte / rune escapes denote exactly that byte / code point (the host's quoting rules,
+				// which is what the literal decoder is defined by); anything else is a silently different value
+				if gw, err := strconv.Unquote(c.src); err == nil && ps.Value != gw {
+					return "C17|str|go-style-escape|wrong-value", fmt.Sprintf("%s → %q (% x), the escapes denote %q (% x)", c.src, ps.Value, ps.Value, gw, gw), dkey
 				}
 			}
 		}
